@@ -381,10 +381,12 @@ def run(ctx):
         pmap = {}
         for c in hirq.calls(pm.hir["body"]):
             if (c.get("fn") or "").endswith("read_subchunk") and len(c["args"]) >= 4:
-                off = hirq.strip(c["args"][2])
                 magic = hirq.lit_str(hirq.strip(c["args"][3]))
-                if off.get("k") == "field" and magic:
-                    pmap.setdefault(off["name"], set()).add(magic)
+                # the offset may be held in a local first (`let layer_ofs = header.ofs_layer;`)
+                for off in [hirq.strip(c["args"][2])] + [hirq.strip(v_) for v_ in hirq.value_leaves(pm.hir["body"], c["args"][2]) if v_ is not None]:
+                    if off.get("k") == "field" and magic:
+                        pmap.setdefault(off["name"], set()).add(magic)
+                        break
         for fld, magics in sorted(pmap.items()):
             if fld not in wmap:
                 ctx.note_unarmed(R_ofs, fld, "writer sets this field outside the recognised capture→write_chunk pattern")
